@@ -106,14 +106,22 @@ theorem whole_packet_c03_full (cls : String) (b : Bytes) (os : List Wire.AnyObj)
   Wire.ChainAll.c03_all_with_fixpoint cls b os hb hparse hres henv
 
 /-- **built_packet_c03_fixpoint** — the fixed point for stacks that did not come out of a parser (API-built, representable:
-    `StackableAll`), under any entry name of the outermost class.  The one exclusion is explicit: no Dot1Q layer pads on behalf
-    of `append_padding_` (`NoAppAll`; object state that is not on the wire — known finding KF-C04-L2-4, refuted on the witness
-    `Wire.L2.padLostWitness` by `Wire.L2.l2_chain_reserialize_fixpoint_fails`). -/
+    `StackableAll`), under any entry name of the outermost class.  The full statement over *every* representable stack is
+    `Wire.ChainAll.chain_reserialize_fixpoint_all`; it is refuted (`c03_fixpoint_all_stacks_fails`) on the witness
+    `Dot1Q(5, append_pad = true) / PPPoE session / RawPDU`: `Dot1Q::append_padding_` is object state that is not on the wire
+    (known finding KF-C04-L2-4, replayed on the real classes).  The excluded region is explicit and decidable — `PadKeptAll`
+    is its complement: wherever a Dot1Q pads on behalf of `append_padding_`, no layer between it and the payload cuts the
+    padding off (`passes`: no PPPoE / IP / IPv6 / EAPOL-by-factory / RadioTap / RTP / STP length or leaf below it) — and this
+    theorem is the proved part: everything outside it. -/
 theorem built_packet_c03_fixpoint (n : String) (o : Wire.AnyObj) (os : List Wire.AnyObj) (hn : Wire.ChainAll.EntryName n o)
-    (hs : Wire.ChainAll.StackableAll (o :: os)) (hna : Wire.ChainAll.NoAppAll (o :: os))
+    (hs : Wire.ChainAll.StackableAll (o :: os)) (hk : Wire.ChainAll.PadKeptAll (o :: os))
     (hpay : (Wire.L2.splitRaw (o :: os)).2 ≠ []) (y : Bytes) (hser : Wire.serializeObjs (o :: os) = .ok y) :
     ∃ q, Wire.parseChain (y.length + 2) n y = .ok q ∧ Wire.serializeObjs q = .ok y :=
-  Wire.ChainAll.chain_fixpoint_named n o os hn hs hna hpay y hser
+  Wire.ChainAll.chain_fixpoint_named n o os hn hs hk hpay y hser
+
+/-- the full statement over every representable stack does not hold (KF-C04-L2-4) -/
+theorem c03_fixpoint_all_stacks_fails : ¬ Wire.ChainAll.chain_reserialize_fixpoint_all :=
+  Wire.ChainAll.chain_reserialize_fixpoint_all_fails
 
 /-- **whole_packet_c03_net** — … and when the stack goes through IP or IPv6 the payload comes back byte for byte: the
     minimum-frame padding EthernetII / Dot1Q append is cut off again by the IP total length / IPv6 payload length
